@@ -93,7 +93,7 @@ def check_block_decode(ctx, rule):
         f"cls.checksum_format != '' and {fvar}[3] != obj.checksum",
     )
     if not ok and len(tests) >= 1:
-        ok = _checksum_gate_equivalent(tests, fvar)
+        ok = _checksum_gate_equivalent(f, tests, fvar)
     ctx.ob(rule, q, ok, "a block type with a checksum field compares the computed checksum with the transmitted one" if ok else
            f"checksum gate is `{[norm(t.ast) for t in tests]}`: a block with a wrong checksum can be accepted", key="checksum-gate", where=f.where)
     if tests:
@@ -105,8 +105,49 @@ def check_block_decode(ctx, rule):
                "the decoded block can be returned without passing the checksum comparison (or a mismatch does not return None)", key="checksum-paths", where=f.where)
 
 
-def _checksum_gate_equivalent(tests, fvar) -> bool:
-    return False
+def _checksum_gate_equivalent(f, tests, fvar) -> bool:
+    """Finite-domain evaluation of the gate condition: the block is refused iff the block type has a checksum field and
+    the computed checksum differs from the transmitted one - evaluated for checksum_format in {'', 'H'}, computed in
+    {0, 300}, transmitted in {0, 300, 77} (0 included: a truthiness test on the transmitted value is wrong)."""
+    import copy
+
+    if len(tests) != 1:
+        return False
+    expr = tests[0].ast
+    defs = rules.single_assignments(f.node)
+
+    class Sub(ast.NodeTransformer):
+        def visit_Name(self, node):
+            if isinstance(node.ctx, ast.Load) and node.id in defs and node.id not in (fvar, "obj", "cls"):
+                return copy.deepcopy(defs[node.id])
+            return node
+
+    cur = copy.deepcopy(expr)
+    for _ in range(3):
+        cur = Sub().visit(cur)
+    ast.fix_missing_locations(cur)
+    try:
+        code = compile(ast.Expression(cur), "<gate>", "eval")
+    except Exception:
+        return False
+
+    class O:
+        pass
+
+    for fmt in ("", "H"):
+        for computed in (0, 300):
+            for received in (0, 300, 77):
+                cls_, obj = O(), O()
+                cls_.checksum_format = fmt
+                obj.checksum = computed
+                env = {"cls": cls_, "obj": obj, fvar: [None, None, None, received], "self": cls_}
+                try:
+                    got = bool(eval(code, {"__builtins__": {}}, env))  # noqa: S307 - abstract stand-ins only
+                except Exception:
+                    return False
+                if got != (fmt != "" and computed != received):
+                    return False
+    return True
 
 
 def check_checksum(ctx, rule):
